@@ -366,6 +366,23 @@ class Report:
             json.dump(ev, f, indent=1, default=str)
 
 
+def gen_rounds(mod, tier, seed, gen=None):
+    """quick: one pass of the generator.  thorough: THOROUGH_ROUNDS passes with derived seeds (the directed parts are re-drawn with
+    fresh keys / messages, the random parts are new); lines tagged #huge (multi-hundred-MiB messages) only in the first pass."""
+    gen = gen or mod.gen
+    lines = list(gen(tier, seed))
+    if tier == 'thorough':
+        rounds = int(os.environ.get('VERIF_THOROUGH_ROUNDS', getattr(mod, 'THOROUGH_ROUNDS', 1)))
+        seen = set(lines)
+        for k in range(1, rounds):
+            for l in gen(tier, seed + 7919 * k):
+                if '#huge' in l or l in seen:
+                    continue
+                seen.add(l)
+                lines.append(l)
+    return lines
+
+
 def standard_check(mod, tier, seed, cfg='rel', floors=None, replay=None):
     """gen -> drive (one configuration) -> check -> verdict.  Used by the plain conformance properties."""
     rep = Report(mod.ID, tier, seed)
@@ -374,7 +391,7 @@ def standard_check(mod, tier, seed, cfg='rel', floors=None, replay=None):
     if replay:
         lines = [l.rstrip('\n') for l in open(replay) if l.strip() and not l.startswith('#')]
     else:
-        lines = list(mod.gen(tier, seed))
+        lines = gen_rounds(mod, tier, seed)
     wd = workdir(mod.ID)
     casefile = os.path.join(wd, 'cases-%s-%d.txt' % (tier, seed))
     write_cases(casefile, lines)
